@@ -273,33 +273,32 @@ pub fn drive<S: Send + 'static>(
     mk: impl Fn(usize) -> S + Send + Sync + 'static,
     run: impl Fn(&mut S, usize, &Value) -> Outcome + Send + Sync + 'static,
 ) -> Report {
-    let mut cases: Vec<(usize, String)> = Vec::new();
-    {
+    // cases are streamed: the files reach hundreds of megabytes
+    let file = std::fs::File::open(path).unwrap_or_else(|e| tool_error(&format!("open {path}: {e}")));
+    let lines = {
         use std::io::BufRead;
-        let file = std::fs::File::open(path).unwrap_or_else(|e| tool_error(&format!("open {path}: {e}")));
-        for (i, line) in std::io::BufReader::with_capacity(1 << 20, file).lines().enumerate() {
-            let line = line.unwrap_or_else(|e| tool_error(&format!("read {path}: {e}")));
-            if !line.trim().is_empty() {
-                cases.push((i + 1, line));
-            }
-        }
-    }
-    let cases = std::sync::Arc::new(cases);
-    let next = std::sync::Arc::new(std::sync::atomic::AtomicUsize::new(0));
+        std::io::BufReader::with_capacity(1 << 20, file).lines().enumerate()
+    };
+    let lines = std::sync::Arc::new(std::sync::Mutex::new(lines));
     let mk = std::sync::Arc::new(mk);
     let run = std::sync::Arc::new(run);
     let mut hs = Vec::new();
     for w in 0..workers.max(1) {
-        let (cases, next, mk, run) = (cases.clone(), next.clone(), mk.clone(), run.clone());
+        let (lines, mk, run) = (lines.clone(), mk.clone(), run.clone());
         hs.push(std::thread::spawn(move || {
             let mut st = mk(w);
             let mut rep = Report::new();
             loop {
-                let i = next.fetch_add(1, std::sync::atomic::Ordering::Relaxed);
-                if i >= cases.len() {
-                    break;
+                let next = lines.lock().unwrap().next();
+                let (no, line) = match next {
+                    None => break,
+                    Some((i, Ok(l))) => (i + 1, l),
+                    Some((i, Err(e))) => tool_error(&format!("read case {}: {e}", i + 1)),
+                };
+                if line.trim().is_empty() {
+                    continue;
                 }
-                let (no, line) = &cases[i];
+                let (no, line) = (&no, &line);
                 let case: Value = serde_json::from_str(line)
                     .unwrap_or_else(|e| tool_error(&format!("case {no}: bad json: {e}")));
                 // a stored replay names the case number it had (the harness derives the
